@@ -206,7 +206,7 @@ class BurstInterp(Interp):
         for i, op in enumerate(prog.get("ops", [])):
             self.op_index = i
             await self.do_op(op)
-        if prog.get("family") == "random":
+        if prog.get("family") in ("random", "churn"):
             self.compare = False
             await self.run_concurrent(prog["burst_ops"])
             await self.teardown()
@@ -496,6 +496,38 @@ def generate(seed, tier, index, kf):
         for op in base["ops"]:
             op["when"] = {"delay": r.choice((0.0, 0.0, 0.001, 0.01, 0.1))}
         base.update({"family": "random", "burst_ops": base["ops"], "ops": [], "props": [PROP], "compare": False})
+        return base
+    if r.random() < 0.08:
+        # "churn": slow readers on one mailbox that keeps getting mail and losing messages while sessions
+        # come and go (SELECT / UNSELECT / CLOSE / LOGOUT+reconnect): every notification loop over the
+        # mailbox's clients is suspended in a drain() while the set of clients changes. Progress oracle.
+        sids = ["sa", "sb", "sc"]
+        prof = {"mailboxes": ["inbox"], "sessions": 3, "init_lo": 2, "init_hi": 5, "ops_lo": 1, "ops_hi": 1, "mode": "concurrent", "quiet_p": 0.0, "weights": {"noop": 1}}
+        base = mailstore.generate(seed, prof)
+        ops = [{"s": s_, "op": "select", "mbox": "inbox", "examine": False} for s_ in sids]
+        for _k in range(r.randint(15, 40)):
+            x = r.random()
+            s_ = r.choice(sids)
+            if x < 0.2:
+                ops.append({"actor": "agent", "op": "deliver", "mbox": "inbox", "count": 1, "unseen": True, "advance": r.random() < 0.7})
+            elif x < 0.4:
+                ops.append({"s": s_, "op": "noop"})
+            elif x < 0.5:
+                ops.append({"s": s_, "op": "store", "uid": False, "set": {"raw": "*"}, "how": "+", "flags": ["\\Deleted"], "silent": False})
+            elif x < 0.6:
+                ops.append({"s": s_, "op": "expunge"})
+            elif x < 0.75:
+                ops.append({"s": s_, "op": r.choice(("unselect", "close"))})
+            elif x < 0.92:
+                ops.append({"s": s_, "op": "select", "mbox": "inbox", "examine": r.random() < 0.2})
+            else:
+                ops.append({"s": s_, "op": "idle"})
+                ops.append({"s": s_, "op": "done"})
+        for op in ops:
+            op["when"] = {"delay": r.choice((0.0, 0.0, 0.01, 0.05, 0.2, 0.5))}
+        base["latency"] = {"exec": r.choice(("zero", "small")), "db": r.choice(("zero", "small")), "net": r.choice(("bimodal", "slow", "wide"))}
+        base["knobs"] = {"sock_buf": r.choice((64, 128, 512))}
+        base.update({"family": "churn", "burst_ops": ops, "ops": [], "props": [PROP], "compare": False, "sessions": [{"id": s_, "proto": "imap"} for s_ in sids]})
         return base
     store, tok = mailstore.initial_store(r, ["inbox", "work"], 3, 8, kw=["kw1"])
     burst, sel = gen_burst(r, store, sids)
